@@ -344,3 +344,98 @@ func vpH_c16_inline_struct() {
 	}
 	vpAssert(len(inner.Rest) == nrest, "the innermost inline map holds nothing else")
 }
+
+func init() { vpRegister("c16_scalar_kinds", vpH_c16_scalar_kinds) }
+
+type vpT4 struct {
+	S    string   `yaml:"s"`
+	I    int      `yaml:"i"`
+	F    float64  `yaml:"f"`
+	B    bool     `yaml:"b"`
+	A    any      `yaml:"a"`
+	LA   []any    `yaml:"la"`
+	LS   []string `yaml:"ls"`
+	LI   []int    `yaml:"li"`
+	Rest map[string]any `yaml:",inline"`
+}
+
+// every scalar kind into every scalar-accepting destination: copied directly
+// into its own type and into `any`, appended to slices of its type / of any,
+// formatted into strings and string slices, and an ErrIncompatibleTypes error
+// otherwise (documented contract of Unmarshal)
+func vpH_c16_scalar_kinds() {
+	var src any
+	var asString string
+	kind := vpInt(0, 3)
+	switch kind {
+	case 0:
+		s := vpStrUpTo(1, "x-z")
+		src, asString = s, s
+	case 1:
+		src, asString = 47, "47"
+	case 2:
+		src, asString = 1.5, "1.5"
+	case 3:
+		if vpBool() {
+			src, asString = true, "true"
+		} else {
+			src, asString = false, "false"
+		}
+	}
+	field := vpInt(0, 7)
+	keys := []string{"s", "i", "f", "b", "a", "la", "ls", "li"}
+	m := NewMap[string, any](0)
+	m.Set(keys[field], src)
+	m.Set("other", src)
+	dst := vpT4{S: "S0", I: 7, F: 2.5, B: false, LA: []any{"x"}, LS: []string{"y"}, LI: []int{1}}
+	err := Unmarshal(m, &dst)
+	compatible := false
+	switch field {
+	case 0: // *string: formatted
+		compatible = true
+		if err == nil {
+			vpAssert(dst.S == asString, "a scalar is formatted into a string field")
+		}
+	case 1:
+		compatible = kind == 1
+		if err == nil {
+			vpAssert(dst.I == 47, "an int is copied into an int field")
+		}
+	case 2:
+		compatible = kind == 2
+		if err == nil {
+			vpAssert(dst.F == 1.5, "a float is copied into a float field")
+		}
+	case 3:
+		compatible = kind == 3
+		if err == nil {
+			vpAssert(dst.B == (asString == "true"), "a bool is copied into a bool field")
+		}
+	case 4:
+		compatible = true
+		if err == nil {
+			vpAssert(dst.A == src, "any field takes the value as is")
+		}
+	case 5:
+		compatible = true
+		if err == nil {
+			vpAssert(len(dst.LA) == 2 && dst.LA[0] == any("x") && dst.LA[1] == src, "a scalar is appended to a []any field")
+		}
+	case 6:
+		compatible = true
+		if err == nil {
+			vpAssert(len(dst.LS) == 2 && dst.LS[0] == "y" && dst.LS[1] == asString, "a scalar is formatted and appended to a []string field")
+		}
+	case 7:
+		compatible = kind == 1
+		if err == nil {
+			vpAssert(len(dst.LI) == 2 && dst.LI[1] == 47, "an int is appended to an []int field")
+		}
+	}
+	if compatible {
+		vpAssert(err == nil, "a compatible scalar unmarshals without error")
+		vpAssert(len(dst.Rest) == 1 && dst.Rest["other"] == src, "the unnamed key goes to the inline map unchanged")
+	} else {
+		vpAssert(err != nil, "an incompatible scalar is reported as an error (never silently converted or dropped)")
+	}
+}
